@@ -86,14 +86,14 @@ def gen_class_spec(rng: random.Random, idx: int, allow_init_false=True, kinds=("
     fs = []
     seen_default_pos = False
     for i in range(n):
-        private = kind == "attrs" and rng.random() < 0.15
+        private = kind == "attrs" and rng.random() < 0.25
         name = f"_p{i}" if private else f"f{i}"
         alias = name.lstrip("_")
-        if kind == "attrs" and rng.random() < 0.15:
+        if kind == "attrs" and rng.random() < 0.2:
             alias = f"al{i}"
         init = not (allow_init_false and rng.random() < 0.2)
         kw_only = rng.random() < 0.3
-        has_default = rng.random() < 0.45
+        has_default = rng.random() < (0.45 if init else 0.7)
         factory = has_default and rng.random() < 0.3
         if init and not kw_only and not has_default and seen_default_pos:
             # attrs/dataclasses refuse a mandatory positional attribute after a defaulted one
@@ -370,7 +370,7 @@ def gen_payload(rng, spec: ClassSpec, ovs, use_alias, incl, junk_rate=0.2, extra
     for f in spec.fields:
         kk = key_of(f, ovs, use_alias)
         r = rng.random()
-        absent = r < (0.5 if f.default is not None else missing_rate)
+        absent = r < (0.35 if f.default is not None else missing_rate)
         if not is_included(f, ovs, incl) and rng.random() < 0.7:
             absent = True
         if absent:
